@@ -5,7 +5,7 @@
 use serde::{Deserialize, Serialize};
 use std::time::Duration;
 
-#[derive(Debug, Serialize, Deserialize, PartialEq)]
+#[derive(Debug, Serialize, Deserialize, PartialEq, Clone)]
 #[serde(tag = "method", content = "parameters")]
 enum M {
     #[serde(rename = "a.Big")]
@@ -66,7 +66,69 @@ fn run_smol() -> i32 {
     })
 }
 
+/// C19 bulk: 128 pipelined 8 KiB calls in ONE flush (1 MiB, several kernel writes) followed by a small call,
+/// peer reading concurrently: every call must arrive intact and in order.
+fn bulk_calls() -> Vec<M> {
+    let mut v: Vec<M> = (0..128).map(|i| M::Big { s: format!("{i:04}{}", "y".repeat(8 * 1024)) }).collect();
+    v.push(M::Small { n: 4242 });
+    v
+}
+fn judge_bulk(bytes: &[u8]) -> i32 {
+    let want = bulk_calls();
+    let mut got = Vec::new();
+    let mut start = 0;
+    for (i, &b) in bytes.iter().enumerate() {
+        if b == 0 {
+            got.push(serde_json::from_slice::<M>(&bytes[start..i]).ok());
+            start = i + 1;
+        }
+    }
+    let ok = got.len() == want.len() && got.iter().zip(&want).all(|(g, w)| g.as_ref() == Some(w)) && start == bytes.len();
+    println!("peer received {} bytes, {} frames ({} undecodable), expected {} frames", bytes.len(), got.len(), got.iter().filter(|g| g.is_none()).count(), want.len());
+    if ok { println!("clean: every call arrived intact and in order"); 0 } else { println!("REPLAY: FAILS on the real code (messages lost or corrupted)"); 1 }
+}
+fn bulk_tokio() -> i32 {
+    let rt = tokio::runtime::Builder::new_current_thread().enable_all().build().unwrap();
+    let ls = tokio::task::LocalSet::new();
+    ls.block_on(&rt, async {
+        use tokio::io::AsyncReadExt;
+        let (a, mut b) = tokio::net::UnixStream::pair().unwrap();
+        let mut conn = zlink_tokio::Connection::new(zlink_tokio::unix::Stream::from(a));
+        let reader = tokio::task::spawn_local(async move { let mut v = Vec::new(); let _ = b.read_to_end(&mut v).await; v });
+        let calls = bulk_calls();
+        for c in &calls[..128] { conn.enqueue_call(&zlink_tokio::Call::new(c)).unwrap(); }
+        let r = tokio::time::timeout(Duration::from_secs(20), async { conn.flush().await?; conn.send_call(&zlink_tokio::Call::new(&calls[128])).await }).await;
+        println!("sender: {r:?}");
+        drop(conn);
+        judge_bulk(&reader.await.unwrap())
+    })
+}
+fn bulk_smol() -> i32 {
+    use futures_lite::{future, AsyncReadExt};
+    future::block_on(async {
+        let (a, b) = std::os::unix::net::UnixStream::pair().unwrap();
+        let a = async_io::Async::new(a).unwrap();
+        let mut b = async_io::Async::new(b).unwrap();
+        let mut conn = zlink_smol::Connection::new(zlink_smol::unix::Stream::from(a));
+        let calls = bulk_calls();
+        let send = async {
+            for c in &calls[..128] { conn.enqueue_call(&zlink_smol::Call::new(c)).unwrap(); }
+            let r = async { conn.flush().await?; conn.send_call(&zlink_smol::Call::new(&calls[128])).await }.await;
+            println!("sender: {r:?}");
+            drop(conn);
+        };
+        let mut v = Vec::new();
+        let recv = async { let _ = b.read_to_end(&mut v).await; };
+        future::zip(send, recv).await;
+        judge_bulk(&v)
+    })
+}
+
 fn main() {
+    if std::env::args().nth(1).as_deref() == Some("bulk") {
+        let rc = match std::env::args().nth(2).as_deref() { Some("tokio") => bulk_tokio(), Some("smol") => bulk_smol(), _ => 2 };
+        std::process::exit(rc);
+    }
     let which = std::env::args().nth(2).unwrap_or_default();
     let rc = match which.as_str() {
         "tokio" => { let ls = tokio::task::LocalSet::new(); let _g = ls.enter(); run_tokio_local(ls) }
